@@ -64,7 +64,7 @@ P = {
   ref="DESIGN.md 5/C14"),
  "C15": dict(
   tech="one-step checks from arbitrary canonical tracker states (shown API-reachable) against a membership predicate; real 4-operation history against a bitmap",
-  text="For every tracker state with hole/data sizes <= 16 and every offset/size <= 40: add is exactly set union, refused only when more than MAX disjoint ranges would be needed and then leaves the tracker bit-identical, touching ranges merge, remove_front shifts by what it returns, add_then_remove_front never fails at offset 0, iter_data/peek_front/is_empty agree; MAX = 4 and 3 in the quick tier, 8 in the thorough tier.",
+  text="For every tracker state with hole/data sizes <= 16 and every offset/size <= 40: add is exactly set union, refused only when more than MAX disjoint ranges would be needed and then leaves the tracker bit-identical, touching ranges merge, remove_front shifts by what it returns, add_then_remove_front never fails at offset 0, iter_data/peek_front/is_empty agree; MAX = 4 and 3 in the quick tier, 8 in the thorough tier for set union, remove_front, the views and state reachability (the refusal and add_then_remove_front harnesses gave no answer at MAX = 8 within 30 minutes and stay at 4 and 3).",
   note="MAX = 32 not reached (solver budget); sizes above the bounds outside.",
   ref="DESIGN.md 5/C15"),
  "C03": dict(
